@@ -2,6 +2,7 @@ package main
 
 import (
 	"fmt"
+	"go/token"
 	"go/types"
 	"strings"
 
@@ -20,8 +21,9 @@ func init() {
 			"C16.5 (=C02.2) inbound connections are registered only for permitted peers; " +
 			"C16.6 the two copies (io.Copy, or a hand-written relay loop shown to be a faithful copier: reads its source only, writes exactly buf[:n] of the read of the same iteration, and writes them before it looks at the read error) connect the peer connection obtained from GetTCPConnection and the client's data connection in opposite directions, each in its own goroutine, and both connections are closed after the first copy ends; " +
 			"C16.7 ErrDupeTCPConnection is answered 446 and ErrTCPConnectionTimeoutOrFailure 447; " +
-			"C16.8 isDupeTCPConnection compares the remote address of every registered connection of the allocation (no iteration is skipped); " +
-			"C16.9 (=C10.4) the client reads the ConnectionBind reply exactly, so that the first peer byte after it is the first byte the user reads.",
+			"C16.8 isDupeTCPConnection compares the remote address of every registered connection of the allocation (no iteration is skipped; by net.IP.Equal, ipnet.AddrEqual or equality of netip values); " +
+			"C16.9 (=C10.4) the client reads the ConnectionBind reply exactly, so that the first peer byte after it is the first byte the user reads; " +
+			"C16.10 (=C08.8 over the allocation package) a netip address taken from a net address is unmapped before it is compared, so the duplicate test sees one peer however its IPv4 address is spelled.",
 		NotCovered: "byte-stream integrity of io.Copy; the timing of the 30 s deadline; what the relay generator's AllocateConn does.",
 		Run:        runC16,
 	})
@@ -207,6 +209,22 @@ func runC16(c *Ctx) {
 								if ex, isEx := v.(*ssa.Extract); isEx && ex.Tuple == ssa.Value(lk) && ex.Index == 0 {
 									nHit++
 									continue
+								}
+								// ... or the allocation in which the id was found, returned on the
+								// hit edge (it was dereferenced for the lookup: not nil)
+								if lp.isElem(v) {
+									hit := false
+									for _, f := range lf.facts {
+										if f.Op == "true" && f.Truth {
+											if e, isE := f.X.(*ssa.Extract); isE && e.Tuple == ssa.Value(lk) && e.Index == 1 {
+												hit = true
+											}
+										}
+									}
+									if hit {
+										nHit++
+										continue
+									}
 								}
 								entry = false
 							}
@@ -501,8 +519,30 @@ func runC16(c *Ctx) {
 		{
 			// the completion signal: the cancel function of a context, close(ch) of a
 			// channel, or a func() made by sync.OnceFunc around one of those
+			// ... or a send on the very channel the handler waits on (that such a send cannot
+			// block for ever is C15.10's obligation, not this one's)
+			chanOf := func(v ssa.Value) ssa.Value {
+				v = w.resolveLoad(v)
+				if x, isFV := v.(*ssa.FreeVar); isFV {
+					if b := w.binding(x); b != nil {
+						v = w.resolveLoad(b)
+					}
+				}
+				return v
+			}
+			waited := map[ssa.Value]bool{}
+			for _, body := range bodies {
+				w.eachInstr(body, func(in ssa.Instruction) {
+					if u, ok := in.(*ssa.UnOp); ok && u.Op == token.ARROW {
+						waited[chanOf(u.X)] = true
+					}
+				})
+			}
 			var isCancel func(in ssa.Instruction) bool
 			isCancel = func(in ssa.Instruction) bool {
+				if snd, isSend := in.(*ssa.Send); isSend {
+					return waited[chanOf(snd.Chan)]
+				}
 				ci, ok := in.(ssa.CallInstruction)
 				if !ok || ci.Common().IsInvoke() {
 					return false
@@ -669,9 +709,25 @@ func runC16(c *Ctx) {
 		// allocation's tcpConnections (the field, or a parameter that only ever receives the
 		// field) whose body compares remote IPs
 		c.Anchor("C16.8", "isDupeTCPConnection")
+		// (net.IP).Equal, ipnet.AddrEqual, or == / != of two netip.Addr / netip.AddrPort values
+		// (that those are unmapped first is C16.10)
 		isIPEqual := func(in ssa.Instruction) bool {
+			if bo, isB := in.(*ssa.BinOp); isB && (bo.Op == token.EQL || bo.Op == token.NEQ) {
+				switch bo.X.Type().String() {
+				case "net/netip.AddrPort", "net/netip.Addr":
+					return true
+				}
+				return false
+			}
 			call, isC := in.(*ssa.Call)
-			return isC && call.Call.StaticCallee() != nil && call.Call.StaticCallee().String() == "(net.IP).Equal"
+			if !isC || call.Call.StaticCallee() == nil {
+				return false
+			}
+			switch call.Call.StaticCallee().String() {
+			case "(net.IP).Equal":
+				return true
+			}
+			return call.Call.StaticCallee() == w.Func("ipnet", "", "AddrEqual")
 		}
 		nLoops := 0
 		allocPath := w.tpkg("allocation").Path()
@@ -743,6 +799,10 @@ func runC16(c *Ctx) {
 		}
 	}
 
+	// ---- C16.10 (=C08.8 over the allocation package): the duplicate test sees one peer however
+	// its IPv4 address is spelled
+	ruleNetipUnmapped(c, "C16.10", "allocation")
+
 	// ---- C16.9 (=C10.4, client half): the stream handed to the user starts right after the
 	// ConnectionBind reply — peer bytes that follow it in the same segment are not swallowed
 	c.Rule("C16.9", "client side of the pipe: BindConnection takes the ConnectionBind reply off the data connection by io.ReadFull of exactly the header and then exactly the declared body, and hands the connection to no other reader (=C10.4)", 2)
@@ -797,28 +857,32 @@ func ruleSingleUseOwner(c *Ctx, rule string) {
 		bad := ""
 		n := 0
 		for _, r := range returnsOf(fn) {
-			v := stripIface(w.resolveLoad(r.Results[0]))
-			if isNilConst(v) {
-				continue
-			}
-			n++
-			okUser, okSwap := false, false
-			for _, f := range w.factsAt(r) {
-				if isUserEq(f) {
-					okUser = true
+			// each way the result can come about (a result variable filled on one branch and
+			// returned at the end is judged where it is filled)
+			for _, lf := range w.guardedLeaves(r.Results[0], r) {
+				v := stripIface(w.resolveLoad(lf.val))
+				if isNilConst(v) {
+					continue
 				}
-				if f.Op == "true" {
-					if call, _ := callOf(f.X); call != nil {
-						if b, wantTruth, ok := w.singleUseClaim(call); ok && f.Truth == wantTruth && w.sameKey(b, v) {
-							okSwap = true
+				n++
+				okUser, okSwap := false, false
+				for _, f := range lf.facts {
+					if isUserEq(f) {
+						okUser = true
+					}
+					if f.Op == "true" {
+						if call, _ := callOf(f.X); call != nil {
+							if b, wantTruth, ok := w.singleUseClaim(call); ok && f.Truth == wantTruth && w.sameKey(b, v) {
+								okSwap = true
+							}
 						}
 					}
 				}
-			}
-			if !okUser {
-				bad = "a connection is returned at " + w.instrPos(r) + " without the test a.userID == userID"
-			} else if !okSwap {
-				bad = "a connection is returned at " + w.instrPos(r) + " without isBound.Swap(true) having returned false for that connection: it could be bound twice"
+				if !okUser {
+					bad = "a connection is returned at " + w.instrPos(r) + " without the test a.userID == userID"
+				} else if !okSwap {
+					bad = "a connection is returned at " + w.instrPos(r) + " without isBound.Swap(true) having returned false for that connection: it could be bound twice"
+				}
 			}
 		}
 		if bad == "" && n > 0 {
